@@ -234,10 +234,18 @@ def unitFamilies : List (Str × List (Str × List Str)) := [
              (S "GCU", [S "gcu"]), (S "k*GCU", [S "kilogcu"]), (S "M*GCU", [S "megagcu"]),
              (S "G*GCU", [S "gigagcu"]), (S "T*GCU", [S "teragcu"]), (S "P*GCU", [S "petagcu"])])]
 
+/-- `UnitType.sniffUnit` (as repaired by the C15 fixes): the canonical name matched exactly, then
+the lower-cased string as an exact alias, then with a plural `s` stripped when longer than 2 bytes. -/
 def sniffIn (units : List (Str × List Str)) (u : Str) : Option Str :=
-  let l := lowerAscii u
-  let l := if l.length > 2 ∧ l.getLast? = some 115 then l.dropLast else l
-  (units.find? (fun e => e.2.contains l)).map (·.1)
+  match units.find? (fun e => e.1 = u) with
+  | some e => some e.1
+  | none =>
+    let l := lowerAscii u
+    match units.find? (fun e => e.2.contains l) with
+    | some e => some e.1
+    | none =>
+      let l := if l.length > 2 ∧ l.getLast? = some 115 then l.dropLast else l
+      (units.find? (fun e => e.2.contains l)).map (·.1)
 
 /-- unit returned by `measurement.Scale(_, from, to)` for ASCII-letter units other than
 "minimum"/"auto" (those need the value; the tag-range regexp never produces them from digits+letters
